@@ -77,7 +77,7 @@ def cmd_import(wt, prop, rnd=1):
         df = os.path.join(sd, 'demo%s.py' % x)
         if not (os.path.exists(pf) and os.path.exists(df)):
             continue
-        i = '%s-%s' % (prop, x if rnd == 1 else ({'A': 'C', 'B': 'D'}[x] if rnd == 2 else {'A': 'E', 'B': 'F'}[x]))
+        i = '%s-%s' % (prop, {1: 'AB', 2: 'CD', 3: 'EF', 4: 'GH', 5: 'IJ'}[rnd]['AB'.index(x)])
         d = os.path.join(SEEDED, i)
         os.makedirs(d, exist_ok=True)
         shutil.copy(pf, os.path.join(d, 'patch.diff'))
